@@ -13,6 +13,8 @@ pub struct BlockPos {
 pub struct WalIndex {
     store: HashMap<String, BlockPos>,
     path: String,
+    /// per key: ticket of the last commit applied through `set_ordered` (not persisted)
+    applied: HashMap<String, u64>,
 }
 
 impl WalIndex {
@@ -45,6 +47,7 @@ impl WalIndex {
         Ok(Self {
             store,
             path: path.to_string_lossy().into_owned(),
+            applied: HashMap::new(),
         })
     }
 
@@ -57,6 +60,18 @@ impl WalIndex {
             },
         );
         self.persist()
+    }
+
+    /// Like `set`, for positions that were computed before this lock was taken: `seq` is the
+    /// caller's ticket (increasing with the position of `key`). A commit that arrives after a
+    /// newer one of the same key has been applied is dropped - applying it would move the
+    /// durable cursor backwards.
+    pub fn set_ordered(&mut self, key: String, seq: u64, idx: u64, offset: u64) -> std::io::Result<()> {
+        if self.applied.get(&key).map_or(false, |last| seq <= *last) {
+            return Ok(());
+        }
+        self.applied.insert(key.clone(), seq);
+        self.set(key, idx, offset)
     }
 
     pub fn get(&self, key: &str) -> Option<&BlockPos> {
